@@ -1,1 +1,192 @@
-"""placeholder"""
+"""Reference model of the pyminify command: a hand-written flag table (from `pyminify --help` and
+docs/source/transforms/*.rst, NOT derived from __main__.py), the size rule, and an independent
+re-implementation of which files a path argument list points at."""
+import os
+
+# flag -> (keyword of python_minifier.minify, value when the flag is present)
+BOOL_FLAGS = {
+    '--no-combine-imports': ('combine_imports', False),
+    '--no-remove-pass': ('remove_pass', False),
+    '--remove-literal-statements': ('remove_literal_statements', True),
+    '--no-hoist-literals': ('hoist_literals', False),
+    '--no-rename-locals': ('rename_locals', False),
+    '--rename-globals': ('rename_globals', True),
+    '--no-remove-object-base': ('remove_object_base', False),
+    '--no-convert-posargs-to-args': ('convert_posargs_to_args', False),
+    '--no-preserve-shebang': ('preserve_shebang', False),
+    '--remove-asserts': ('remove_asserts', True),
+    '--remove-debug': ('remove_debug', True),
+    '--no-remove-explicit-return-none': ('remove_explicit_return_none', False),
+    '--no-remove-builtin-exception-brackets': ('remove_builtin_exception_brackets', False),
+    '--no-constant-folding': ('constant_folding', False),
+}
+ANNOTATION_FLAGS = [
+    '--no-remove-annotations',
+    '--no-remove-variable-annotations',
+    '--no-remove-return-annotations',
+    '--no-remove-argument-annotations',
+    '--remove-class-attribute-annotations',
+]
+ALL_FLAGS = sorted(BOOL_FLAGS) + ANNOTATION_FLAGS      # the 19 boolean option flags
+
+DEFAULT_KW = {
+    'combine_imports': True, 'remove_pass': True, 'remove_literal_statements': False, 'hoist_literals': True,
+    'rename_locals': True, 'rename_globals': False, 'remove_object_base': True, 'convert_posargs_to_args': True,
+    'preserve_shebang': True, 'remove_asserts': False, 'remove_debug': False, 'remove_explicit_return_none': True,
+    'remove_builtin_exception_brackets': True, 'constant_folding': True,
+}
+
+
+def split_preserve(values):
+    """Repeatable option; each value split on ',', items stripped, empty items dropped, order kept."""
+    out = []
+    for v in values:
+        for item in v.split(','):
+            item = item.strip()
+            if item:
+                out.append(item)
+    return out
+
+
+def is_invalid_combination(flags):
+    return '--remove-class-attribute-annotations' in flags and '--no-remove-annotations' in flags
+
+
+def kwargs_documented(flags, preserve):
+    """flags: iterable of flag strings; preserve: list of [option, value] in command line order.
+    -> dict: keyword -> value, with 'remove_annotations' as a 4-list (variable, return, argument, class_attribute)."""
+    flags = set(flags)
+    kw = dict(DEFAULT_KW)
+    for f in flags:
+        if f in BOOL_FLAGS:
+            k, v = BOOL_FLAGS[f]
+            kw[k] = v
+    ra = [True, True, True, False]
+    if '--no-remove-variable-annotations' in flags:
+        ra[0] = False
+    if '--no-remove-return-annotations' in flags:
+        ra[1] = False
+    if '--no-remove-argument-annotations' in flags:
+        ra[2] = False
+    if '--remove-class-attribute-annotations' in flags:
+        ra[3] = True
+    if '--no-remove-annotations' in flags:
+        ra = [False, False, False, False]
+    kw['remove_annotations'] = ra
+    kw['preserve_locals'] = split_preserve([v for o, v in preserve if o == '--preserve-locals'])
+    kw['preserve_globals'] = split_preserve([v for o, v in preserve if o == '--preserve-globals'])
+    return kw
+
+
+def kw_key(kw):
+    return repr(sorted((k, v) for k, v in kw.items()))
+
+
+class Model(object):
+    """M(content, kwargs, force): one visit.  Results are cached per (content, kwargs)."""
+
+    def __init__(self):
+        self.cache = {}
+        self.api_calls = 0
+
+    def api(self, content, kw):
+        key = (content, kw_key(kw))
+        r = self.cache.get(key)
+        if r is None:
+            import python_minifier
+            from python_minifier.transforms.remove_annotations_options import RemoveAnnotationsOptions
+            k = dict(kw)
+            k['remove_annotations'] = RemoveAnnotationsOptions(*k['remove_annotations'])
+            k['preserve_locals'] = list(k['preserve_locals'])
+            k['preserve_globals'] = list(k['preserve_globals'])
+            self.api_calls += 1
+            try:
+                out = python_minifier.minify(content, **k)
+                r = ('ok', out.encode('utf-8'))       # an unencodable result fails the command as well
+            except Exception as e:      # noqa: any failure of the API is a failing input for the command
+                r = ('fail', type(e).__name__)
+            self.cache[key] = r
+        return r
+
+    def visit(self, content, kw, force):
+        """-> ('fail', why) | ('keep', content) | ('emit', bytes)"""
+        if content is None:
+            return ('fail', 'unreadable')
+        r = self.api(content, kw)
+        if r[0] == 'fail':
+            return r
+        out = r[1]
+        if not force and len(out) > len(content):
+            return ('keep', content)
+        return ('emit', out)
+
+
+def alt_kwargs(kw):
+    """Option sets differing from kw in at most two boolean keywords, plus all-defaults (used only to tell
+    'a complete minified module under other options' from garbage)."""
+    keys = sorted(DEFAULT_KW)
+    base = dict(kw)
+    out = []
+    d = dict(DEFAULT_KW)
+    d['remove_annotations'] = [True, True, True, False]
+    d['preserve_locals'] = []
+    d['preserve_globals'] = []
+    out.append(d)
+    for i, a in enumerate(keys):
+        k1 = dict(base)
+        k1[a] = not k1[a]
+        out.append(k1)
+        for b in keys[i + 1:]:
+            k2 = dict(k1)
+            k2[b] = not k2[b]
+            out.append(k2)
+    for i in range(4):
+        k = dict(base)
+        ra = list(k['remove_annotations'])
+        ra[i] = not ra[i]
+        k['remove_annotations'] = ra
+        out.append(k)
+    for ra in ([True] * 4, [False] * 4):
+        k = dict(base)
+        k['remove_annotations'] = list(ra)
+        out.append(k)
+    for pk in ('preserve_locals', 'preserve_globals'):
+        k = dict(base)
+        k[pk] = []
+        out.append(k)
+    return out
+
+
+PY_SUFFIXES = ('.py', '.pyw')
+
+
+def walk_model(path_args, cwd):
+    """Independent statement of 'the files it was pointed at': explicit non-directory arguments as given;
+    directories walked recursively following links; names ending in .py / .pyw.
+    -> list of (path as the command would print it is NOT modelled) realpaths, as a list with multiplicity."""
+    out = []
+
+    def walk(d, depth):
+        if depth > 60:
+            return
+        try:
+            names = sorted(os.listdir(d))
+        except OSError:
+            return
+        subdirs = []
+        for n in names:
+            p = os.path.join(d, n)
+            if os.path.isdir(p):
+                subdirs.append(p)
+            elif n.endswith(PY_SUFFIXES):
+                out.append(os.path.realpath(p))
+        for p in subdirs:
+            walk(p, depth + 1)
+
+    for a in path_args:
+        p = a if os.path.isabs(a) else os.path.join(cwd, a)
+        if os.path.isdir(p):
+            walk(p, 0)
+        else:
+            out.append(os.path.realpath(p))
+    return out
